@@ -6,6 +6,7 @@ import (
 	"fmt"
 	"io"
 	"net/url"
+	"os"
 	"reflect"
 	"strings"
 	"sync"
@@ -504,6 +505,29 @@ func c13lock(c *Ctx) {
 		if err := ws.Sync(); err != nil || own.syncs != 1 {
 			c.Fail("C13: AddSync did not keep the existing Sync of a writer", "AddSync(AddSync(w)).Sync() returned %v after %d calls of the writer's own Sync", err, own.syncs)
 			return
+		}
+	}
+	// files whose own Sync fails (a pipe end, a character device): AddSync keeps
+	// that Sync and relays its verdict, whatever it is
+	if g.Chance(8) {
+		c.R.Probe("AddSync over a pipe end and a character device")
+		var files []*os.File
+		if pr, pw, err := os.Pipe(); err == nil {
+			files = append(files, pw)
+			defer pr.Close()
+		}
+		if dn, err := os.OpenFile(os.DevNull, os.O_WRONLY, 0); err == nil {
+			files = append(files, dn)
+		}
+		for _, f := range files {
+			own := f.Sync()
+			via := zapcore.AddSync(f).Sync()
+			viaLock := zapcore.Lock(zapcore.AddSync(f)).Sync()
+			f.Close()
+			if (own == nil) != (via == nil) || (own == nil) != (viaLock == nil) || (own != nil && own.Error() != via.Error()) {
+				c.Fail("C13: AddSync did not keep the existing Sync of a writer", "%s: the file's own Sync returned %v, through AddSync %v, through Lock(AddSync) %v", f.Name(), own, via, viaLock)
+				return
+			}
 		}
 	}
 	so := &syncOnlyWriter{err: errors.New("sync error of the wrapped writer")}
